@@ -1,4 +1,5 @@
 import N2k.Driver.Core
+import N2k.Driver.Pgn
 open N2k.Driver
 
 partial def loop (h : IO.FS.Stream) (out : IO.FS.Stream) : IO Unit := do
@@ -7,7 +8,9 @@ partial def loop (h : IO.FS.Stream) (out : IO.FS.Stream) : IO Unit := do
   let toks := (line.trimAscii.toString.splitOn " ").filter (· ≠ "")
   let resp := match handleBasic toks with
     | some r => r
-    | none => "bad-op"
+    | none => match handlePgn toks with
+      | some r => r
+      | none => "bad-op"
   out.putStrLn resp
   loop h out
 
